@@ -13,6 +13,7 @@ import (
 	"runtime/debug"
 	"sort"
 	"strings"
+	"syscall"
 	"time"
 )
 
@@ -57,13 +58,63 @@ type ReplayFile struct {
 	Scenario *Scenario `json:"scenario"`
 }
 
+// Real descriptors 1 and 2 of the worker process are redirected to a capture
+// file: the library is supposed to write through os.Stdout / os.Stderr /
+// fmt.Print* (all woven onto the simulated sinks); anything that arrives on the
+// real descriptors bypassed those (package log, the print builtins, os.NewFile,
+// raw syscalls) and is attributed to the scenario being judged.
+var (
+	captureFile *os.File
+	captureSize int64
+	realStdout  = os.Stdout
+	realStderr  = os.Stderr
+)
+
+func captureRealFds(path string) {
+	f, err := os.OpenFile(path, os.O_RDWR|os.O_CREATE|os.O_TRUNC, 0600)
+	if err != nil {
+		return
+	}
+	if fd, err := syscall.Dup(1); err == nil {
+		realStdout = os.NewFile(uintptr(fd), "real-stdout")
+	}
+	if fd, err := syscall.Dup(2); err == nil {
+		realStderr = os.NewFile(uintptr(fd), "real-stderr")
+	}
+	syscall.Dup2(int(f.Fd()), 1)
+	syscall.Dup2(int(f.Fd()), 2)
+	captureFile = f
+}
+
+func capturedSince() string {
+	if captureFile == nil {
+		return ""
+	}
+	st, err := captureFile.Stat()
+	if err != nil || st.Size() <= captureSize {
+		return ""
+	}
+	buf := make([]byte, st.Size()-captureSize)
+	captureFile.ReadAt(buf, captureSize)
+	captureSize = st.Size()
+	return string(buf)
+}
+
 func judgeSafely(p Property, sc *Scenario) (v *Verdict) {
 	defer func() {
 		if r := recover(); r != nil {
 			v = &Verdict{OK: true, Trouble: fmt.Sprintf("harness panic in judge: %v\n%s", r, debug.Stack())}
 		}
 	}()
-	return p.Judge(sc)
+	capturedSince()
+	v = p.Judge(sc)
+	if leaked := capturedSince(); leaked != "" {
+		v.stat("probe.output-on-real-descriptor")
+		if sc.Prop == "C04" {
+			v.fail("c04:output-bypasses-os.Stdout-os.Stderr", fmt.Sprintf("while this scenario ran, %d bytes reached the process's real descriptor 1/2 without passing os.Stdout / os.Stderr (e.g. package log, print/println, os.NewFile): %s", len(leaked), q(clip(leaked, 400))))
+		}
+	}
+	return v
 }
 
 func scenarioSeed(seed uint64, prop string, idx int) uint64 {
@@ -170,7 +221,11 @@ func mainRun(args []string) int {
 	maxSec := fs.Float64("max-seconds", 0, "stop generating new scenarios after this many seconds (0 = never)")
 	shrinkSec := fs.Float64("shrink-seconds", 20, "")
 	hashesPath := fs.String("hashes", "", "determinism self-test: write per-scenario outcome hashes here")
+	capPath := fs.String("capture-fds", "", "redirect this process's real fd 1/2 to this file and watch it")
 	fs.Parse(args)
+	if *capPath != "" {
+		captureRealFds(*capPath)
+	}
 	perIndex := map[string]string{}
 	p := properties[*prop]
 	if p == nil {
@@ -209,7 +264,8 @@ func mainRun(args []string) int {
 		}
 		res.Runs++
 		res.Evals += v.Evals
-		res.OpsRun += v.Evals * len(sc.Ops)
+		res.OpsRun += opsExecuted
+		opsExecuted = 0
 		for k, n := range v.Stats {
 			res.Stats[k] += n
 		}
@@ -280,13 +336,13 @@ func mainRun(args []string) int {
 	}
 	b, _ := json.Marshal(res)
 	if *outPath == "" {
-		fmt.Println(string(b))
+		fmt.Fprintln(realStdout, string(b))
 	} else if err := ioutil.WriteFile(*outPath, b, 0644); err != nil {
 		fmt.Fprintln(os.Stderr, "simexec:", err)
 		return 2
 	}
 	if res.Trouble != "" {
-		fmt.Fprintln(os.Stderr, "simexec: trouble:", res.Trouble)
+		fmt.Fprintln(realStderr, "simexec: trouble:", res.Trouble)
 		return 2
 	}
 	return 0
@@ -356,23 +412,28 @@ func mainReplay(args []string) int {
 	knownPath := fs.String("known", "", "")
 	fs.Parse(args)
 	if fs.NArg() < 1 {
-		fmt.Fprintln(os.Stderr, "usage: simexec replay <file>")
+		fmt.Fprintln(realStderr, "usage: simexec replay <file>")
 		return 2
+	}
+	if tmp, err := ioutil.TempFile("", "simexec-capture"); err == nil {
+		tmp.Close()
+		captureRealFds(tmp.Name())
+		defer os.Remove(tmp.Name())
 	}
 	b, err := ioutil.ReadFile(fs.Arg(0))
 	if err != nil {
-		fmt.Fprintln(os.Stderr, "simexec:", err)
+		fmt.Fprintln(realStderr, "simexec:", err)
 		return 2
 	}
 	var rf ReplayFile
 	if err := json.Unmarshal(b, &rf); err != nil {
-		fmt.Fprintln(os.Stderr, "simexec: bad replay file:", err)
+		fmt.Fprintln(realStderr, "simexec: bad replay file:", err)
 		return 2
 	}
 	knownGlobal = loadKnown(*knownPath)
 	p := properties[rf.Property]
 	if p == nil || rf.Scenario == nil {
-		fmt.Fprintln(os.Stderr, "simexec: replay file names unknown property", rf.Property)
+		fmt.Fprintln(realStderr, "simexec: replay file names unknown property", rf.Property)
 		return 2
 	}
 	var runs []RunRecord
@@ -382,29 +443,29 @@ func mainReplay(args []string) int {
 	v := judgeSafely(p, rf.Scenario)
 	recordRuns = nil
 	if v.Trouble != "" {
-		fmt.Fprintln(os.Stderr, "simexec: trouble:", v.Trouble)
+		fmt.Fprintln(realStderr, "simexec: trouble:", v.Trouble)
 		return 2
 	}
 	if !*quiet {
 		for i, r := range runs {
-			fmt.Printf("=== execution %d of %d ===\n", i+1, len(runs))
+			fmt.Fprintf(realStdout, "=== execution %d of %d ===\n", i+1, len(runs))
 			for j, op := range r.Ops {
 				ob, _ := json.Marshal(op)
-				fmt.Printf("  op%d: %s\n", j, clip(string(ob), 700))
+				fmt.Fprintf(realStdout, "  op%d: %s\n", j, clip(string(ob), 700))
 			}
-			fmt.Println("  --- event trace ---")
+			fmt.Fprintln(realStdout, "  --- event trace ---")
 			for _, l := range r.Outcome.Trace {
-				fmt.Println("    ", clip(l, 200))
+				fmt.Fprintln(realStdout, "    ", clip(l, 200))
 			}
-			fmt.Println("  --- operation results ---")
+			fmt.Fprintln(realStdout, "  --- operation results ---")
 			for j, res := range r.Outcome.Ops {
 				rb, _ := json.Marshal(res)
-				fmt.Printf("    op%d %s\n", j, clip(string(rb), 1500))
+				fmt.Fprintf(realStdout, "    op%d %s\n", j, clip(string(rb), 1500))
 			}
 		}
 	}
 	for _, kid := range sortedKeys(v.KnownHits) {
-		fmt.Printf("KNOWN-FINDING-REPRODUCED property=%s %s: %s\n", rf.Property, kid, v.KnownHits[kid])
+		fmt.Fprintf(realStdout, "KNOWN-FINDING-REPRODUCED property=%s %s: %s\n", rf.Property, kid, v.KnownHits[kid])
 	}
 	if v.OK {
 		if strings.HasPrefix(rf.Class, "known:") {
@@ -412,12 +473,12 @@ func mainReplay(args []string) int {
 				return 4
 			}
 		}
-		fmt.Printf("REPLAY-OK property=%s recorded_class=%s (the recorded violation does not occur on this tree)\n", rf.Property, rf.Class)
+		fmt.Fprintf(realStdout, "REPLAY-OK property=%s recorded_class=%s (the recorded violation does not occur on this tree)\n", rf.Property, rf.Class)
 		return 0
 	}
-	fmt.Printf("violation class=%s\n%s\n", v.Class, v.Msg)
+	fmt.Fprintf(realStdout, "violation class=%s\n%s\n", v.Class, v.Msg)
 	same := v.Class == rf.Class
-	fmt.Printf("REPLAY-VIOLATION property=%s class=%s same_class_as_recorded=%v\n", rf.Property, v.Class, same)
+	fmt.Fprintf(realStdout, "REPLAY-VIOLATION property=%s class=%s same_class_as_recorded=%v\n", rf.Property, v.Class, same)
 	if !same {
 		return 3
 	}
